@@ -1496,6 +1496,75 @@ def _live_range(fn, name):
     return (min(lines), max(lines)) if lines else (0, 0)
 
 
+def _dictcomps_to_loops(fn, rf, log, q):
+    """T = {k: v for i, k in enumerate(S)}  ->  T = {}; for i in
+    range(len(S)): T[S[i]] = v   where the reference has that loop."""
+    ref_iters = {}
+    for tg, it in rf.get('loops', []):
+        ref_iters.setdefault(it, []).append(tg)
+    if not ref_iters:
+        return
+    for blk in _blocks(fn):
+        i = 0
+        while i < len(blk):
+            st = blk[i]
+            if isinstance(st, ast.Assign) and len(st.targets) == 1 and \
+                    isinstance(st.value, ast.DictComp) and \
+                    len(st.value.generators) == 1 and \
+                    not st.value.generators[0].ifs:
+                g = st.value.generators[0]
+                seq = idx = key = None
+                if isinstance(g.iter, ast.Call) and _n(g.iter.func) == \
+                        'enumerate' and len(g.iter.args) == 1 and \
+                        isinstance(g.target, ast.Tuple) and \
+                        len(g.target.elts) == 2 and all(
+                            isinstance(e, ast.Name) for e in g.target.elts):
+                    seq = g.iter.args[0]
+                    idx, key = (e.id for e in g.target.elts)
+                elif isinstance(g.target, ast.Name):
+                    seq = g.iter
+                    key = g.target.id
+                if seq is not None:
+                    hdr = 'range(len(%s))' % _n(seq)
+                    if hdr in ref_iters:
+                        iname = idx or _free_index_name(fn, st,
+                                                        ref_iters[hdr])
+                        if iname:
+                            elem = ast.Subscript(
+                                value=copy.deepcopy(seq), slice=ast.Name(
+                                    id=iname, ctx=ast.Load()),
+                                ctx=ast.Load())
+                            sub = {key: elem}
+                            k_ = _Subst(sub).visit(copy.deepcopy(
+                                st.value.key))
+                            v_ = _Subst(sub).visit(copy.deepcopy(
+                                st.value.value))
+                            tgt = copy.deepcopy(st.targets[0])
+                            tgt.ctx = ast.Load()
+                            store = ast.Assign(targets=[ast.Subscript(
+                                value=tgt, slice=k_, ctx=ast.Store())],
+                                value=v_)
+                            loop = ast.For(
+                                target=ast.Name(id=iname, ctx=ast.Store()),
+                                iter=ast.parse(hdr, mode='eval').body,
+                                body=[store], orelse=[])
+                            init = ast.Assign(targets=st.targets,
+                                              value=ast.Dict(keys=[],
+                                                             values=[]))
+                            for n_ in (init, loop):
+                                ast.copy_location(n_, st)
+                                for x in ast.walk(n_):
+                                    ast.copy_location(x, st)
+                            blk[i:i + 1] = [init, loop]
+                            log.append('%s: dict comprehension for %s '
+                                       'restored to a keyed-store loop'
+                                       % (q, _n(st.targets[0])))
+                            i += 2
+                            continue
+            i += 1
+    ast.fix_missing_locations(fn)
+
+
 def _loops_to_comprehensions(fn, rf, log, q):
     """`X = []` + `for v in S: X.append(E)`  ->  `X = [E for v in S]` where
     the reference defines X by a comprehension."""
@@ -2136,6 +2205,7 @@ def canonicalise(tree, modname, text=None):
         n0 = len(log)
         _inline_hoisted(fn, rf, log, q)
         _restore_bool_returns(fn, rf, log, q)
+        _dictcomps_to_loops(fn, rf, log, q)
         _loops_to_comprehensions(fn, rf, log, q)
         _unroll_literal_loops(fn, rf, log, q)
         _orient_ifs(fn, rf, log, q)
